@@ -183,6 +183,8 @@ class Interp:
         self.resolve_module_constants = inline_module_functions
         self._resolving = set()
         self._class_consts = {}
+        self.yield_hook = None
+        self.await_hook = None
         # a self-call that is neither hooked nor inlined is a silent no-op unless strict
         self.strict_self_calls = strict_self_calls
         self.dyn = dyn
@@ -268,6 +270,9 @@ class Interp:
         self.steps += 1
         if self.steps > self.max_steps:
             raise AnalysisError("absint: step limit in %s" % f.qualname)
+        if isinstance(st, ast.Expr) and isinstance(st.value, (ast.Yield, ast.Await)):
+            self.suspend(st.value, env, f)
+            return
         if isinstance(st, ast.Expr):
             if isinstance(st.value, ast.Constant):
                 return
@@ -773,6 +778,8 @@ class Interp:
                 if isinstance(e.op, (ast.FloorDiv, ast.Mod)) and b != 0:
                     return a // b if isinstance(e.op, ast.FloorDiv) else a % b
             return TOP
+        if isinstance(e, (ast.Yield, ast.Await)):
+            return self.suspend(e, env, f)
         if isinstance(e, ast.Starred):
             return TOP
         raise Unsupported("expression %s" % type(e).__name__)
@@ -1067,6 +1074,17 @@ class Interp:
         if isinstance(cm.base, dict):
             return self.dict_method(cm.base, cm.name, list(args), kwargs)
         raise Unsupported("method %s of %r through getattr" % (cm.name, cm.base))
+
+    def suspend(self, node, env, f):
+        """`yield` / `await`: a tree-walking interpreter cannot suspend, so the model supplies what happens
+        while the function is suspended (the body of the `with`, the awaited completion, a concurrent step)
+        as a hook; if the hook raises _Raise, the exception is thrown into the function at that point --
+        exactly what generator.throw() / a failing await do."""
+        hook = self.yield_hook if isinstance(node, ast.Yield) else self.await_hook
+        if hook is None:
+            raise Unsupported("%s without a model of what happens meanwhile" % type(node).__name__.lower())
+        val = None if node.value is None else self.eval(node.value, env, f)
+        return hook(val)
 
     # ------------------------------------------------------------ containers of abstract elements
     def same(self, a, b):
